@@ -16,8 +16,8 @@ constructor with its warning flags (`fixLoopW` = `_jitfix_iset` + `to_warn`), `g
 Proved (all sizes): the constructor keeps metadata ONLY when it emitted every input pair in place
 (`new_rows_faithful`), hence every indexing form returns each interval with its own row or no metadata
 at all (`getIdx_rows`), intersect rows are those of the two parents containing the piece
-(`intersect_rows`), `loc` and `iloc` coincide on the `0..n-1` index (`loc_eq_iloc`), `loc` follows
-labels (`loc_sound`).  set_diff / split parents, TsdFrame columns and TsGroup members: tagged-data
+(`intersect_rows`), set_diff rows are those of the parent containing the piece (`diff_rows`), `loc` and `iloc` coincide on the `0..n-1` index (`loc_eq_iloc`), `loc` follows
+labels (`loc_sound`).  split parents, TsdFrame columns and TsGroup members: tagged-data
 oracle + model correspondence.
 -/
 namespace Pyn.C13
@@ -249,6 +249,43 @@ theorem intersect_rows (a b : TISet) (ra rb : Array Row) (ha : a.rows = some ra)
     rw [ee, pairsEn_get, pairsEn_get] at this
     rw [ee, pairsEn_get, pairsEn_get]
     exact this
+
+theorem diff_eq (a b : TISet) (ra : Array Row) (ha : a.rows = some ra)
+    (hse : (jitdiff (pairsSt a.iv) (pairsEn a.iv) (pairsSt b.iv) (pairsEn b.iv) (pairs_size _) (pairs_size _)).st.size =
+           (jitdiff (pairsSt a.iv) (pairsEn a.iv) (pairsSt b.iv) (pairsEn b.iv) (pairs_size _) (pairs_size _)).en.size) :
+    a.diff b = TISet.new _ _ hse (some ((jitdiff (pairsSt a.iv) (pairsEn a.iv) (pairsSt b.iv) (pairsEn b.iv)
+        (pairs_size _) (pairs_size _)).par.map (ra[·]!))) := by
+  unfold TISet.diff
+  simp only [ha, Option.getD_some, dif_pos hse]
+
+/-- **set_diff: each remaining piece carries the row of the interval of A that contains it.**  For any
+A with metadata and any B with non-decreasing ends (every IntervalSet): if the result keeps metadata,
+result interval k lies inside `A[p]` for the parent `p` whose row it carries. -/
+theorem diff_rows (a b : TISet) (ra : Array Row) (ha : a.rows = some ra) (hb : Sorted (pairsEn b.iv))
+    (r : Array Row) (hr : (a.diff b).rows = some r) :
+    let o := jitdiff (pairsSt a.iv) (pairsEn a.iv) (pairsSt b.iv) (pairsEn b.iv) (pairs_size _) (pairs_size _)
+    r.size = o.par.size ∧ (a.diff b).iv.size = o.par.size ∧
+    ∀ k, (hk : k < o.par.size) → ∃ (h0 : k < r.size) (h1 : k < (a.diff b).iv.size) (hp : o.par[k] < a.iv.size),
+      r[k] = ra[o.par[k]]! ∧ a.iv[o.par[k]].1 ≤ (a.diff b).iv[k].1 ∧ (a.diff b).iv[k].2 ≤ a.iv[o.par[k]].2 := by
+  intro o
+  obtain ⟨hse, hsp, hall⟩ := C02.diff_entries (pairsSt a.iv) (pairsEn a.iv) (pairsSt b.iv) (pairsEn b.iv) (pairs_size _) (pairs_size _) hb
+  rw [diff_eq a b ra ha hse] at hr ⊢
+  obtain ⟨h1, h2, h3⟩ := new_rows_faithful _ _ _ _ r hr
+  simp only [Option.some.injEq] at h1
+  refine ⟨by rw [← h1]; simp [o], by rw [h2]; exact hsp, ?_⟩
+  intro k hk
+  have hks : k < o.st.size := by rw [hsp]; exact hk
+  obtain ⟨hk', e⟩ := h3 k hks
+  obtain ⟨hp, c1, c2⟩ := hall k hks (hse ▸ hks) hk
+  have hp' : o.par[k] < a.iv.size := Nat.lt_of_lt_of_eq hp (by simp [pairsSt])
+  refine ⟨by rw [← h1]; simpa [o] using hk, hk', hp', ?_, ?_, ?_⟩
+  · simp [← h1, o]
+  · rw [e]; simp only
+    rw [pairsSt_get] at c1; exact c1
+  · rw [e]; simp only
+    rw [pairsEn_get] at c2
+    have := fixTrim_le o.st k (o.en[k]'(hse ▸ hks))
+    exact Int.le_trans this c2
 
 /-! ## label-indexed frames: `loc` follows labels, `iloc` follows positions, and they coincide on
 the `0..n-1` index every IntervalSet has -/
